@@ -635,7 +635,7 @@ fn exec_mop(op: &MOp, iter: &mut Option<IterBox>) {
                     sim::harness_error(&format!("registration of {} failed unexpectedly: {}", sig_name(*sig), e));
                 }
                 Err(_) => {
-                    sim::harness_error("registration panicked unexpectedly");
+                    sim::report("C18", "mutator-panicked", &format!("a registration call panicked: {}", sighook_shim::shm::get_str(&sighook_shim::shm::get().panic_msg)), true);
                 }
             }
         }
